@@ -68,21 +68,22 @@ CLAIMS = {
     ),
     "C02": dict(
         text=(
-            "Decides that Solver.solve has the shape of a correct refute-and-resolve computation, clause by clause, "
-            "from guard facts and def-use on the source: (REF-5) UNSAT first solve returns False; candidates start as "
-            "the first model on keys and None elsewhere; (REF-1) inside the loop a candidate is only ever demoted to "
-            "None, under candidate[i] != fresh sol of the same variable, after this iteration's solve; (REF-2) the loop "
-            "is `while True`, left only by break under `not backend.solve()`, one add_constraint then one solve per "
-            "iteration; (REF-3) the refuting constraint is Op.OR over a list rebuilt each iteration whose operands are "
-            "variable[i] != candidate[i] for exactly the keys with non-None candidate, all variables scanned; (REF-4) "
-            "key-guarded write-back of all candidates after the loop, no other sol store, True returned; (REF-6) the "
-            "native/fallback partition of the six backends through the class hierarchy equals the property's, the "
-            "selector is try/except NotImplementedError only; (REF-7 = SGR-2..5) deduction-mode replies built from the "
-            "Java wrapper's templates are parsed correctly. Not decided: that this shape computes the intersection of "
-            "all models (the idea itself), the external solvers."
+            "(REF-E, the deciding rule) Solver.solve - with whatever private helpers or helper classes of solver.py it calls - is "
+            "interpreted by the analyser against a scripted backend that enumerates a chosen finite model set in a chosen order "
+            "(the posted constraints are the DSL's own trees, evaluated with C01's reference meanings): every model set of size 0..3 "
+            "over (bool, int[, bool]) variables x every enumeration order x every answer-key mask, with non-models first in the "
+            "enumeration, fresh integer objects, falsy values, a backend that keeps and one that clears `sol` on UNSAT; demotion chains "
+            "whose length comes from the integer literals of the code (iteration caps); native-route pass-through. The verdict and "
+            "every key's sol must be exactly the common value or None; a deterministic non-terminating round is a violation too. "
+            "The step from these scenarios to all programs rests on the code inspecting values one index at a time through != and "
+            "`is None`, established by the catalogued loop shape (REF-1..5, guard facts and def-use) or, for a differently written "
+            "loop, by a uniformity vocabulary over all reachable code (REF-V); neither alone can raise a violation. (REF-6) the "
+            "native/fallback partition of the six backends through the class hierarchy equals the property's; (REF-7 = SGR-2..5) "
+            "deduction-mode replies built from the Java wrapper's templates are parsed correctly. Not decided: that "
+            "refute-and-resolve computes the intersection of all models (the idea itself), the external solvers."
         ),
-        note="Trusted: the refute-and-resolve idea; the Java wrapper as format definition. A refactoring that moves the loop out of Solver.solve makes the check exit 2 (analysis error), not pass.",
-        technique="static analysis: typestate/shape rules over guard facts and def-use of Solver.solve; class-hierarchy resolution (ast)",
+        note="Trusted: the refute-and-resolve idea; the Java wrapper as format definition; the uniformity argument that carries the finite scenarios to all programs. A loop that is neither in the catalogued shape nor inside the REF-V vocabulary makes the check exit 2, not pass.",
+        technique="static analysis: abstract interpretation of Solver.solve against scripted backend models; typestate/shape rules and a vocabulary rule over guard facts and def-use; class-hierarchy resolution (ast)",
         ref="DESIGN.md §3 C02",
     ),
     "C20": dict(
